@@ -37,14 +37,15 @@ type FuzzReq struct {
 }
 
 type FuzzCase struct {
-	Where     string    `json:"where"` // inproc | http | toy:<caller>
-	ToySeq    string    `json:"toy_seq,omitempty"`
-	Batch     bool      `json:"batch"`
-	Reqs      []FuzzReq `json:"reqs"`
-	Verdicts  []string  `json:"verdicts"` // per request, or ["rejected"]
-	ToyCalled []string  `json:"toy_called,omitempty"`
-	Delta     uint64    `json:"sign_counter_delta"`
-	Undecided string    `json:"undecided,omitempty"` // infrastructure trouble: not a verdict
+	Where        string    `json:"where"` // inproc | http | toy:<caller>
+	ToySeq       string    `json:"toy_seq,omitempty"`
+	Batch        bool      `json:"batch"`
+	Reqs         []FuzzReq `json:"reqs"`
+	Verdicts     []string  `json:"verdicts"` // per request, or ["rejected"]
+	ToyCalled    []string  `json:"toy_called,omitempty"`
+	Delta        uint64    `json:"sign_counter_delta"`
+	Undecided    string    `json:"undecided,omitempty"`    // infrastructure trouble: not a verdict
+	Unattributed string    `json:"unattributed,omitempty"` // a counter movement that did not repeat: undecided
 }
 
 func lowerFirst(s string) string {
@@ -288,9 +289,13 @@ func sendPipe(srv *rpc.Server, msg string) ([]byte, string) {
 	defer p2.Close()
 	go srv.ServeCodec("c18fuzz", rpc.NewJSONCodec(p1), rpc.OptionMethodInvocation|rpc.OptionSubscriptions)
 	p2.SetDeadline(time.Now().Add(20 * time.Second))
-	if _, err := io.WriteString(p2, msg+"\n"); err != nil {
-		return nil, "write: " + err.Error()
-	}
+	// net.Pipe is synchronous in each direction: write from a goroutine, so that the server can start
+	// answering while the tail of the message (the newline) is still being handed over
+	werr := make(chan error, 1)
+	go func() {
+		_, err := io.WriteString(p2, msg+"\n")
+		werr <- err
+	}()
 	dec := json.NewDecoder(p2)
 	for i := 0; i < 50; i++ {
 		var raw json.RawMessage
@@ -431,6 +436,16 @@ func runFuzz(sc Scenario, env *c18node.Env, universe, subUniverse map[string]rpc
 			fc := FuzzCase{Where: where, ToySeq: toySeq, Batch: batch, Reqs: chunk, Delta: keystore.VerifSignCount() - before}
 			if toy {
 				fc.ToyCalled = toyLogTake()
+			}
+			if fc.Delta > 0 && !toy {
+				// attribute the movement to this message only if it repeats when the message is sent again
+				settleCounter(env, false)
+				b2 := keystore.VerifSignCount()
+				send(msg)
+				if keystore.VerifSignCount() == b2 {
+					fc.Unattributed = fmt.Sprintf("the keystore counter moved by %d during the message but not when it was sent again", fc.Delta)
+					fc.Delta = 0
+				}
 			}
 			if trouble != "" {
 				fc.Undecided = trouble
